@@ -6,24 +6,11 @@ From Coq Require Import Lia.
 Opaque under_of.
 
 (* ---- the matrix --------------------------------------------------------------------- *)
-Lemma matrix_all : forallb (fun c => implb (cell_safe c) (cell_ok c)) matrix = true.
+Lemma matrix_all : forallb cell_ok matrix = true.
 Proof. vm_compute. reflexivity. Qed.
 
-Lemma matrix_cells c : In c matrix -> cell_safe c = true -> cell_ok c = true.
-Proof.
-  intros Hin Hs. pose proof matrix_all as H. rewrite forallb_forall in H.
-  specialize (H c Hin). now rewrite Hs in H.
-Qed.
-
-Lemma matrix_unsafe_all : forallb (fun c => implb (negb (cell_safe c)) (negb (cell_ok c))) matrix = true.
-Proof. vm_compute. reflexivity. Qed.
-
-Lemma matrix_refuted : exists c, In c matrix /\ cell_ok c = false.
-Proof.
-  exists (UnderPub, (KValueNone, (g_list false, XFresh (FacConc CList)))). split.
-  - unfold matrix. apply in_prod; [cbn; tauto|]. apply in_prod; cbn; tauto.
-  - vm_compute. reflexivity.
-Qed.
+Lemma matrix_cells c : In c matrix -> cell_ok c = true.
+Proof. intro Hin. pose proof matrix_all as H. rewrite forallb_forall in H. exact (H c Hin). Qed.
 
 (* ---- allocation: factory products are fresh ------------------------------------------- *)
 Definition allocating (f : factory) : bool :=
